@@ -15,10 +15,10 @@ hypotheses (`'/' ∉ name` is what makes `#/components/schemas/<name>` a JSON po
 |-------------------------------------------------|--------------------------------|-------------------------------------------------------------|
 | every `$ref` resolves                           | `refs_closed` (full)           | `bulk_closed` (partial: key hypothesis), `bulk_full_false`, `bulk_key_not_closed`, `bulk_key_collision` (negations) |
 | every request body referenced is defined        | `request_bodies_defined` (full)| part of `bulk_closed`; `body_key_is_name`                   |
-| operations = requested                          | `ops_exact` (full)             | `bulk_ops_exact` (one batch per file); `bulk_appended_batch_lost` (negation) |
+| operations = requested                          | `ops_exact` (full)             | `bulk_ops_exact`, `bulk_ops_exact_any_layout` (any spread over files / upsert batches); `pinned_appended_batch_lost` (the repaired defect) |
 | template parameters declared                    | `params_declared` (full)       | `bulk_params_declared`                                      |
 | routes fed back describe the same model         | `schemas_describe_models`      | `bulk_roundtrip`                                            |
-| routes can be generated at all                  |                                | `gen_routes_undocumented_column_raises` (negation)          |
+| routes can be generated at all                  |                                | `gen_routes_pk_total` (full); `pinned_undocumented_column_raises` (the repaired defect) |
 
 "serialisable JSON" holds by construction in the model (`J` has string keys and JSON leaves only); on the real
 dicts it is checked by the harness oracle (`json.loads(json.dumps(doc)) == doc`).
@@ -184,7 +184,10 @@ theorem bulk_key_collision :
          | some v => v.beq (.obj [(c!"description", .str c!"Lower-case class.")])
          | none => false)) = true := by decide
 
-/-! ### `gen_routes` → `openapi_bulk` for any number of models, one upsert batch per routes file
+/-! ### `gen_routes` → `openapi_bulk` for any number of models
+
+`es` is the list of models in the order their routes appear in the routes files; `bulk_ops_exact_any_layout` shows that
+every way of spreading them over routes files and `upsert_routes` batches yields that list.
 
 `GoodEntry e` (defined in `Proofs/OpenApi.lean`) is: `'/' ∉ name`, ``'`' ∉ name``, `name ≠ ""`, `':' ∉ route`, `'/' ∉ id`
 (class names / column names are identifiers, route prefixes are plain).  `bottleKeys e = [route, route/:id]` are the
@@ -234,25 +237,54 @@ example : ∃ doc, bulk c!"app" [] (([
       (c!"/v2/body_part", c!"post"), (c!"/v2/body_part/{name}", c!"get"), (c!"/baz/{k}", c!"delete")] :=
   bulk_ops_exact _ _ _ (by decide) (by decide) (by decide)
 
-/-- **Negation on a witness (known finding C16-upsert-appended-batch).**  Two models upserted into one routes file:
-    only the batch that created the file is visible to `openapi_bulk`; the operations requested for the second model
-    (`Bar`, "CR") are absent from the document. -/
-theorem bulk_appended_batch_lost :
+/-- **C16 (c) for `openapi_bulk`, any layout:** however the models are spread over routes files and over successive
+    `upsert_routes` calls on the same file (`files : List (List Entry)`: a file = the batches upserted into it, in
+    order), the document read back has exactly the operations requested for all of them. -/
+theorem bulk_ops_exact_any_layout (app : Str) (ts : List Table) (files : List (List Entry))
+    (hgood : ∀ e ∈ files.flatten, GoodEntry e)
+    (hb : (files.flatten.flatMap bottleKeys).Nodup) (hp : (files.flatten.flatMap pathKeys).Nodup) :
+    ∃ doc, bulk app ts (files.flatMap (fun batches => visibleRoutes (batches.map (genRoutes app)))) = .ok doc ∧
+      allOps doc = files.flatten.flatMap requested := by
+  rw [routes_of_layout]
+  exact bulk_ops_exact app ts files.flatten hgood hb hp
+
+/-- non-vacuity, and the former witness of the appended-batch defect: `Foo` ("RD") then `Bar` ("CR") upserted into ONE
+    routes file, a third model in a file of its own — all five operations are present -/
+example : ∃ doc, bulk c!"rest_api" [] ([[⟨c!"Foo", [], c!"/api/foo", c!"id", c!"RD"⟩, ⟨c!"Bar", [], c!"/api/bar", c!"id", c!"CR"⟩],
+      [⟨c!"Baz", [], c!"/baz", c!"k", c!"C"⟩]].flatMap (fun batches => visibleRoutes (batches.map (genRoutes c!"rest_api")))) = .ok doc ∧
+    allOps doc = [(c!"/api/foo/{id}", c!"get"), (c!"/api/foo/{id}", c!"delete"), (c!"/api/bar", c!"post"), (c!"/api/bar/{id}", c!"get"),
+      (c!"/baz", c!"post")] :=
+  bulk_ops_exact_any_layout _ _ _ (by decide) (by decide) (by decide)
+
+/-- the defect repaired by the fix commit "upsert_routes appended … without a separating newline": when only the batch
+    that created a routes file was visible (`visibleRoutesPinned`), the operations requested for the second model
+    upserted into the file (`Bar`, "CR") were absent from the document -/
+theorem pinned_appended_batch_lost :
     okAnd (bulk c!"rest_api" [⟨c!"foo", []⟩, ⟨c!"bar", []⟩]
-      (visibleRoutes [genRoutes c!"rest_api" ⟨c!"Foo", [], c!"/api/foo", c!"id", c!"RD"⟩,
-                      genRoutes c!"rest_api" ⟨c!"Bar", [], c!"/api/bar", c!"id", c!"CR"⟩]))
+      (visibleRoutesPinned [genRoutes c!"rest_api" ⟨c!"Foo", [], c!"/api/foo", c!"id", c!"RD"⟩,
+                            genRoutes c!"rest_api" ⟨c!"Bar", [], c!"/api/bar", c!"id", c!"CR"⟩]))
       (fun doc => allOps doc == [(c!"/api/foo/{id}", c!"get"), (c!"/api/foo/{id}", c!"delete")]) = true ∧
     requested ⟨c!"Bar", [], c!"/api/bar", c!"id", c!"CR"⟩ = [(c!"/api/bar", c!"post"), (c!"/api/bar/{id}", c!"get")] := by
   decide
 
-/-- **Negation on a witness (known finding C16-gen-routes-undocumented-column).**  `gen_routes`' primary-key search
-    raises `KeyError` as soon as it examines a column without `doc`; with an explicit `[PK]` column placed first it
-    does not look further. -/
-theorem gen_routes_undocumented_column_raises :
-    raises (pickPk [(c!"id", none)]) .keyError = true ∧
-    raises (pickPk [(c!"a", some c!"x"), (c!"id", none)]) .keyError = true ∧
-    okAnd (pickPk [(c!"id", some c!"[PK] the id"), (c!"b", none)]) (· == c!"id") = true ∧
-    okAnd (pickPk [(c!"a", some c!"x"), (c!"b", some c!"y")]) (· == c!"a") = true := by decide
+/-- **Routes can be generated for every model with at least one column:** `gen_routes`' primary-key choice never
+    raises and is fully specified — the first column whose `doc` starts with `[PK]`, otherwise the first column;
+    a column without `doc` (no `comment=`) is just not the `[PK]` one. -/
+theorem gen_routes_pk_total (p : Str × Option Str) (ps : List (Str × Option Str)) :
+    pickPk (p :: ps) = .ok (match (p :: ps).find? isPkDoc with | some q => q.1 | none => p.1) := by
+  obtain ⟨k, d⟩ := p
+  exact pickPkGo_spec _ _
+
+example : okAnd (pickPk [(c!"id", none)]) (· == c!"id") = true := by decide
+example : okAnd (pickPk [(c!"a", some c!"x"), (c!"b", none), (c!"id", some c!"[PK] key")]) (· == c!"id") = true := by decide
+example : okAnd (pickPk [(c!"a", none), (c!"b", some c!"y")]) (· == c!"a") = true := by decide
+
+/-- the defect repaired by the fix commit "gen_routes raised KeyError 'doc' …": the search indexed `["doc"]` and raised
+    as soon as it examined a column without `doc` -/
+theorem pinned_undocumented_column_raises :
+    raises (pickPkPinned [(c!"id", none)]) .keyError = true ∧
+    raises (pickPkPinned [(c!"a", some c!"x"), (c!"id", none)]) .keyError = true ∧
+    okAnd (pickPkPinned [(c!"id", some c!"[PK] the id"), (c!"b", none)]) (· == c!"id") = true := by decide
 
 /-- the two model routes to `bottle(template)` agree (samples; the harness compares both with the real `bottle()` on
     every generated name) — this is a test of the model's internal consistency, not a universally quantified theorem -/
